@@ -275,6 +275,18 @@ func c10Fixed() []string {
 	for _, n := range []int{100, 200, 300, 1000, 20000} {
 		l = append(l, "print 0 and (1"+strings.Repeat("+1", n)+") or 2\nprint 1 and (1"+strings.Repeat("+1", n)+") or 2\nprint 1 or (1"+strings.Repeat("*1", n)+")\n")
 	}
+	// skipped operands sized around the 16-bit jump limit: accepted ones must be well-formed, longer ones rejected
+	for d := 65530; d <= 65540; d += 1 {
+		bytesWanted := d - 1
+		neg := ""
+		if bytesWanted%2 == 0 {
+			neg = "-"
+			bytesWanted--
+		}
+		operand := neg + "1" + strings.Repeat("+1", (bytesWanted+1)/2-1)
+		l = append(l, "print 0 and ("+operand+")\nprint 1 or ("+operand+")\n")
+	}
+	l = append(l, "def b { f = 0 and (1"+strings.Repeat("+1", 40000)+") }\n")
 	// nested chains
 	l = append(l, "var a = 1 var b = 0\nprint a and b and a or b or a and (b or a) and not (a and b)\nprint (a = b) or (b = a) and a\ndef x { f = a and (g = b) or (h = a and not b) }\n")
 	return l
